@@ -2,7 +2,7 @@
 # tools/try_patch.sh <patch.diff> <property-id>...   — run checks against a scratch copy of
 # /repo with the patch applied (the copy lives under /tmp and is removed afterwards).
 set -u
-P="$1"; shift
+P="$(readlink -f "$1")"; shift
 D=$(mktemp -d /tmp/scr.XXXXXX)
 rsync -a --exclude target --exclude .git --exclude _seed /repo/ "$D/"
 if ! (cd "$D" && patch -p1 -s < "$P"); then echo "patch does not apply"; rm -rf "$D"; exit 3; fi
